@@ -207,6 +207,23 @@ def check_nonce(line, c):
     share = c.decode("share", S.de_scalar, unhex(need(line, "share", "nonce"), "share"))
     if share is None:
         return
+    if "rand_candidates" in line:
+        # the nonce must be nonce_generate(r, share) for SOME 32-byte draw r the library made (order of draws is not checked)
+        cands = line["rand_candidates"]
+        if not isinstance(cands, list) or not cands:
+            raise Malformed("rand_candidates must be a non-empty list")
+        want = need(line, "nonce", "nonce")
+        k = None
+        for r in cands:
+            kk = S.nonce_generate(unhex(r, "rand_candidates", 32), share)
+            if S.ser_scalar(kk).hex() == want:
+                k = kk
+                break
+        if k is None:
+            c.mism.append(("nonce (%s): nonce_generate(r, share) for some recorded 32-byte draw r" % line.get("what", ""), "one of %d candidates" % len(cands), want))
+            return
+        c.eq("commitment", S.ser_elem(S.commit(k)), need(line, "commitment", "nonce"))
+        return
     k = S.nonce_generate(unhex(need(line, "rand", "nonce"), "rand", 32), share)
     c.eq("nonce", S.ser_scalar(k), need(line, "nonce", "nonce"))
     c.eq("commitment", S.ser_elem(S.commit(k)), need(line, "commitment", "nonce"))
